@@ -452,7 +452,56 @@ def init_only_attrs(trees: List[ast.AST]) -> Dict[str, Set[str]]:
     return res
 
 
-def _pure_value(e: ast.AST, cls_attrs: Set[str], props: Set[str]) -> bool:
+PLAIN_CONTAINER_ATTRS: Dict[str, Set[str]] = {}   # class name -> init-only attributes that hold a built-in tuple
+
+
+def _plain_container_value(v: Optional[ast.AST], attr: str) -> bool:
+    if v is None:
+        return False
+    # tuples only: a list or dict lookup can raise depending on what was stored since, and rules
+    # about handlers care where that happens
+    if isinstance(v, ast.Tuple):
+        return True
+    if isinstance(v, ast.Call) and isinstance(v.func, ast.Name) and v.func.id == "tuple":
+        return True
+    if isinstance(v, ast.BinOp) and isinstance(v.op, ast.Add):
+        def side(x):
+            return _plain_container_value(x, attr) or (isinstance(x, ast.Attribute) and isinstance(x.value, ast.Name) and x.value.id == "self" and x.attr == attr)
+        return side(v.left) and side(v.right)
+    return False
+
+
+def plain_container_attrs(trees: List[ast.AST], init_only: Dict[str, Set[str]]) -> Dict[str, Set[str]]:
+    """Of the init-only attributes, those every assignment of which (in __init__) is a tuple
+    display, a tuple() call or a concatenation of such: subscripting them is a plain lookup."""
+    res: Dict[str, Set[str]] = {}
+    for t in trees:
+        for c in ast.walk(t):
+            if not isinstance(c, ast.ClassDef):
+                continue
+            vals: Dict[str, List[Optional[ast.AST]]] = {}
+            for m in c.body:
+                if isinstance(m, (ast.FunctionDef, ast.AsyncFunctionDef)) and m.name == "__init__":
+                    for n in ast.walk(m):
+                        tv = None
+                        if isinstance(n, ast.Assign) and len(n.targets) == 1:
+                            tv = (n.targets[0], n.value)
+                        elif isinstance(n, ast.AnnAssign):
+                            tv = (n.target, n.value)
+                        elif isinstance(n, (ast.Assign, ast.AugAssign)):
+                            for tg in (n.targets if isinstance(n, ast.Assign) else [n.target]):
+                                for x in ast.walk(tg):
+                                    if isinstance(x, ast.Attribute) and isinstance(x.value, ast.Name) and x.value.id == "self":
+                                        vals.setdefault(x.attr, []).append(None)
+                        if tv and isinstance(tv[0], ast.Attribute) and isinstance(tv[0].value, ast.Name) and tv[0].value.id == "self":
+                            vals.setdefault(tv[0].attr, []).append(tv[1])
+            ok = {a for a, vs in vals.items() if a in init_only.get(c.name, set()) and vs and all(_plain_container_value(v, a) for v in vs)}
+            if ok:
+                res[c.name] = ok
+    return res
+
+
+def _pure_value(e: ast.AST, cls_attrs: Set[str], props: Set[str], plain: Optional[Set[str]] = None, effectful: Optional[Set[str]] = None) -> bool:
     """Evaluating e has no effect and denotes the same thing wherever its free names do:
     names, constants, arithmetic, tuple displays, slices / subscripts of names, and chains
     `self.a(.b)*` whose first attribute is bound in __init__ only."""
@@ -466,17 +515,24 @@ def _pure_value(e: ast.AST, cls_attrs: Set[str], props: Set[str]) -> bool:
             return False
         return ch[1] in cls_attrs and (len(ch) == 2 or ch[-1] in METHOD_NAMES)
     if isinstance(e, ast.BinOp) and isinstance(e.op, (ast.Add, ast.Sub, ast.Mult, ast.FloorDiv)):
-        return _pure_value(e.left, cls_attrs, props) and _pure_value(e.right, cls_attrs, props)
+        return _pure_value(e.left, cls_attrs, props, plain, effectful) and _pure_value(e.right, cls_attrs, props, plain, effectful)
     if isinstance(e, ast.UnaryOp) and isinstance(e.op, (ast.USub, ast.UAdd)):
-        return _pure_value(e.operand, cls_attrs, props)
+        return _pure_value(e.operand, cls_attrs, props, plain, effectful)
     if isinstance(e, ast.Tuple):
-        return all(_pure_value(x, cls_attrs, props) for x in e.elts)
+        return all(_pure_value(x, cls_attrs, props, plain, effectful) for x in e.elts)
     if isinstance(e, ast.Subscript):
-        if not isinstance(e.value, ast.Name):
+        # a subscript is a __getitem__ call: plain only for local names that are not known to be
+        # containers with an effectful lookup (defaultdict, Counter, ...), and for `self.a` where a
+        # is an init-only built-in container
+        if isinstance(e.value, ast.Name):
+            if effectful and e.value.id in effectful:
+                return False
+        elif not (isinstance(e.value, ast.Attribute) and isinstance(e.value.value, ast.Name) and e.value.value.id == "self"
+                  and e.value.attr in (plain or set()) and e.value.attr in cls_attrs and e.value.attr not in props and "*" not in props):
             return False
         sl = e.slice
         parts = [sl.lower, sl.upper, sl.step] if isinstance(sl, ast.Slice) else [sl]
-        return all(x is None or _pure_value(x, cls_attrs, props) for x in parts)
+        return all(x is None or _pure_value(x, cls_attrs, props, plain, effectful) for x in parts)
     return False
 
 
@@ -487,6 +543,23 @@ def _propagate_pure_locals(func: ast.AST, props: Set[str], cls_name: Optional[st
     import copy
 
     cls_attrs = INIT_ONLY_ATTRS.get(cls_name or "", set())
+    plain = PLAIN_CONTAINER_ATTRS.get(cls_name or "", set())
+    # locals (and parameters, by annotation) whose subscript has an effect or is not a plain lookup
+    effectful: Set[str] = set()
+    for n in ast.walk(func):
+        tv = None
+        if isinstance(n, ast.Assign) and len(n.targets) == 1 and isinstance(n.targets[0], ast.Name):
+            tv = (n.targets[0].id, n.value, None)
+        elif isinstance(n, ast.AnnAssign) and isinstance(n.target, ast.Name):
+            tv = (n.target.id, n.value, n.annotation)
+        elif isinstance(n, ast.arg):
+            tv = (n.arg, None, n.annotation)
+        if tv is None:
+            continue
+        nm, v, ann = tv
+        txt = (ast.unparse(v) if v is not None else "") + " " + (ast.unparse(ann) if ann is not None else "")
+        if any(k in txt for k in ("defaultdict", "DefaultDict", "Counter", "DefaultList", "EquivalenceDB", "ClassDB", "LabelToInfo", "ClassToInfo", "RecomputingDict")):
+            effectful.add(nm)
     a = func.args
     params = {x.arg for x in a.posonlyargs + a.args + a.kwonlyargs} | ({a.vararg.arg} if a.vararg else set()) | ({a.kwarg.arg} if a.kwarg else set())
     folded = 0
@@ -523,7 +596,7 @@ def _propagate_pure_locals(func: ast.AST, props: Set[str], cls_name: Optional[st
                     elif isinstance(st, ast.AnnAssign) and isinstance(st.target, ast.Name) and st.value is not None:
                         name, value = st.target.id, st.value
                     if name is None or name in params or name in nested_names or len(store_pos.get(name, [])) != 1 or isinstance(value, (ast.Name, ast.Constant)) \
-                            or not _pure_value(value, cls_attrs, props):
+                            or not _pure_value(value, cls_attrs, props, plain, effectful):
                         i += 1
                         continue
                     here = (st.lineno, st.col_offset)
@@ -564,6 +637,165 @@ def _propagate_pure_locals(func: ast.AST, props: Set[str], cls_name: Optional[st
     return folded
 
 
+def _names_in(e: Optional[ast.AST]) -> Set[str]:
+    return {x.id for x in ast.walk(e) if isinstance(x, ast.Name)} if e is not None else set()
+
+
+def _loops_to_comprehensions(func: ast.AST) -> int:
+    """`L = []` immediately followed by `for T in IT: L.append(E)` (optionally under one `if`)
+    is the list comprehension `L = [E for T in IT if c]`: same elements, same order, same
+    evaluation order.  Only when the loop variables are not read after the loop (a
+    comprehension does not leak them) and nothing in the loop mentions L."""
+    n = 0
+    for holder in [func] + list(_local_nodes(func)):
+        for block in _blocks(holder):
+            i = 0
+            while i + 1 < len(block):
+                st, lp = block[i], block[i + 1]
+                name = None
+                if isinstance(st, ast.Assign) and len(st.targets) == 1 and isinstance(st.targets[0], ast.Name):
+                    name, value = st.targets[0].id, st.value
+                elif isinstance(st, ast.AnnAssign) and isinstance(st.target, ast.Name) and st.value is not None:
+                    name, value = st.target.id, st.value
+                empty = name is not None and (isinstance(value, ast.List) and not value.elts
+                                              or isinstance(value, ast.Call) and isinstance(value.func, ast.Name) and value.func.id == "list"
+                                              and not value.args and not value.keywords)
+                if not empty or not isinstance(lp, ast.For) or lp.orelse or len(lp.body) != 1:
+                    i += 1
+                    continue
+                b = lp.body[0]
+                test = None
+                if isinstance(b, ast.If) and not b.orelse and len(b.body) == 1:
+                    test, b = b.test, b.body[0]
+                ok = (isinstance(b, ast.Expr) and isinstance(b.value, ast.Call) and isinstance(b.value.func, ast.Attribute) and b.value.func.attr == "append"
+                      and isinstance(b.value.func.value, ast.Name) and b.value.func.value.id == name and len(b.value.args) == 1 and not b.value.keywords
+                      and not isinstance(b.value.args[0], ast.Starred))
+                if not ok:
+                    i += 1
+                    continue
+                elt = b.value.args[0]
+                parts = [elt, test, lp.iter, lp.target]
+                if any(name in _names_in(x) for x in parts) or any(isinstance(y, (ast.Yield, ast.YieldFrom, ast.Await, ast.NamedExpr)) for x in parts if x is not None
+                                                                    for y in ast.walk(x)):
+                    i += 1
+                    continue
+                tnames = _names_in(lp.target)
+                inside = {id(y) for y in ast.walk(lp)}
+                if any(isinstance(y, ast.Name) and y.id in tnames and id(y) not in inside for y in _local_nodes(func)):
+                    i += 1
+                    continue            # the loop variable is used outside the loop
+                comp = ast.ListComp(elt=elt, generators=[ast.comprehension(target=lp.target, iter=lp.iter, ifs=[test] if test is not None else [], is_async=0)])
+                ast.copy_location(comp, lp)
+                st.value = comp
+                del block[i + 1]
+                n += 1
+                i += 1
+    return n
+
+
+def _append_loops_to_extend(func: ast.AST) -> int:
+    """`for T in IT: X.append(E)` (optionally under one `if`) is `X.extend(E for T in IT if c)`
+    when X is a name or a plain attribute / subscript chain that the loop does not involve."""
+    n = 0
+    for holder in [func] + list(_local_nodes(func)):
+        for block in _blocks(holder):
+            for i, lp in enumerate(block):
+                if not isinstance(lp, ast.For) or lp.orelse or len(lp.body) != 1:
+                    continue
+                b = lp.body[0]
+                test = None
+                if isinstance(b, ast.If) and not b.orelse and len(b.body) == 1:
+                    test, b = b.test, b.body[0]
+                if not (isinstance(b, ast.Expr) and isinstance(b.value, ast.Call) and isinstance(b.value.func, ast.Attribute) and b.value.func.attr == "append"
+                        and len(b.value.args) == 1 and not b.value.keywords and not isinstance(b.value.args[0], ast.Starred)):
+                    continue
+                recv = b.value.func.value
+                cur = recv
+                plain = True
+                while not isinstance(cur, ast.Name):
+                    if isinstance(cur, ast.Attribute):
+                        cur = cur.value
+                    elif isinstance(cur, ast.Subscript) and isinstance(cur.slice, (ast.Constant, ast.Name)):
+                        cur = cur.value
+                    else:
+                        plain = False
+                        break
+                if not plain:
+                    continue
+                elt = b.value.args[0]
+                tnames = _names_in(lp.target)
+                rnames = _names_in(recv)
+                if rnames & tnames or (rnames - {"self"}) & (_names_in(lp.iter) | _names_in(elt) | _names_in(test)):
+                    continue
+                if norm_text(recv) in norm_text(lp.iter) or norm_text(recv) in norm_text(elt):
+                    continue
+                parts = [elt, test, lp.iter]
+                if any(isinstance(y, (ast.Yield, ast.YieldFrom, ast.Await, ast.NamedExpr)) for x in parts if x is not None for y in ast.walk(x)):
+                    continue
+                inside = {id(y) for y in ast.walk(lp)}
+                if any(isinstance(y, ast.Name) and y.id in tnames and id(y) not in inside for y in _local_nodes(func)):
+                    continue
+                ge = ast.GeneratorExp(elt=elt, generators=[ast.comprehension(target=lp.target, iter=lp.iter, ifs=[test] if test is not None else [], is_async=0)])
+                ast.copy_location(ge, lp)
+                call = ast.Call(func=ast.Attribute(value=recv, attr="extend", ctx=ast.Load()), args=[ge], keywords=[])
+                ast.copy_location(call, lp)
+                ast.copy_location(call.func, lp)
+                new = ast.Expr(value=call)
+                ast.copy_location(new, lp)
+                block[i] = new
+                n += 1
+    return n
+
+
+def norm_text(e: Optional[ast.AST]) -> str:
+    return " ".join(ast.unparse(e).split()) if e is not None else "\0"
+
+
+_CONSUMERS = {"tuple", "list", "set", "frozenset", "sorted", "sum", "min", "max"}
+
+
+def _comprehension_arguments(func: ast.AST) -> int:
+    """tuple([f(x) for x in xs]) is tuple(f(x) for x in xs) for every consumer that takes all
+    the elements."""
+    n = 0
+    for c in list(_local_nodes(func)):
+        if isinstance(c, ast.Call) and isinstance(c.func, ast.Name) and c.func.id in _CONSUMERS and c.args and isinstance(c.args[0], ast.ListComp):
+            lc = c.args[0]
+            ge = ast.GeneratorExp(elt=lc.elt, generators=lc.generators)
+            ast.copy_location(ge, lc)
+            c.args[0] = ge
+            n += 1
+    return n
+
+
+def _tuple_repetition(func: ast.AST) -> int:
+    """`(c,) * n` / `n * (c,)` with a constant c is `tuple(c for _ in range(n))`."""
+    n = 0
+    for holder in list(_local_nodes(func)):
+        for field, val in ast.iter_fields(holder):
+            items = val if isinstance(val, list) else [val]
+            for j, e in enumerate(items):
+                if not (isinstance(e, ast.BinOp) and isinstance(e.op, ast.Mult)):
+                    continue
+                tup, cnt = (e.left, e.right) if isinstance(e.left, ast.Tuple) else (e.right, e.left)
+                if not (isinstance(tup, ast.Tuple) and len(tup.elts) == 1 and isinstance(tup.elts[0], ast.Constant)) or isinstance(cnt, ast.Tuple):
+                    continue
+                ge = ast.GeneratorExp(elt=tup.elts[0], generators=[ast.comprehension(
+                    target=ast.Name(id="_", ctx=ast.Store()), iter=ast.Call(func=ast.Name(id="range", ctx=ast.Load()), args=[cnt], keywords=[]), ifs=[], is_async=0)])
+                call = ast.Call(func=ast.Name(id="tuple", ctx=ast.Load()), args=[ge], keywords=[])
+                for x in ast.walk(call):
+                    if not hasattr(x, "lineno"):
+                        ast.copy_location(x, e)
+                ast.copy_location(call, e)
+                ast.fix_missing_locations(call)
+                if isinstance(val, list):
+                    val[j] = call
+                else:
+                    setattr(holder, field, call)
+                n += 1
+    return n
+
+
 def canonicalise(tree: ast.AST, props: Set[str]) -> int:
     total = 0
     for c in ast.walk(tree):
@@ -577,4 +809,10 @@ def canonicalise(tree: ast.AST, props: Set[str]) -> int:
             total += _fold_aliases(n, props)
             total += _propagate_pure_locals(n, props, cls_name)
             total += _fold_function(n, props)
+            k = _loops_to_comprehensions(n)
+            k += _append_loops_to_extend(n)
+            if k:
+                total += k + _fold_function(n, props)
+            total += _comprehension_arguments(n)
+            total += _tuple_repetition(n)
     return total
